@@ -17,7 +17,7 @@ use serde_json::json;
 const RULE: &str = "cases = (type, left value, right value, Some/None flags) with values given as index lists into a per-type table of boundary values (MIN, MIN+1, -1, 0, 1, MAX-1, MAX; false/true; '\\0','a',U+D7FF,U+E000,U+10FFFF) - scalars: all pairs, slices: all sequences of length <= 3 over three values, all pairs; oracle = PartialEq::eq / Ord::cmp on the same values for every eq_*/cmp_* function, const_eq!/const_cmp!, const_eq_for!/const_cmp_for! (all comparator forms), the Option variants in all 4 Some/None combinations, assertc_eq!/assertc_ne! (panic iff != / ==); plus order laws on konst's own results over all triples; non-trivial = slices of different length whose first difference favours the shorter one, Option mixes, or boundary scalars; distinct by the whole tuple";
 
 #[derive(Serialize, Deserialize, Debug, Clone, Hash)]
-struct Case {
+pub struct Case {
     ty: String,
     /// "scalar" | "slice" | "str" | "strs" | "bytess" | "range" | "misc" | "laws"
     form: String,
@@ -437,7 +437,7 @@ fn ck_laws(c: &Case) -> Result<(), String> {
     }
 }
 
-fn run_case(c: &Case) -> Result<(), String> {
+pub fn run_case(c: &Case) -> Result<(), String> {
     match c.form.as_str() {
         "scalar" | "slice" => {
             let f = SCALARS.iter().find(|s| s.0 == c.ty).ok_or("unknown type")?.2;
@@ -562,7 +562,7 @@ fn explore(ctx: &mut Ctx) {
     });
 }
 
-fn fold_case((t, a, b, sa, sb, form): &(usize, Vec<usize>, Vec<usize>, bool, bool, usize)) -> Case {
+pub fn fold_case((t, a, b, sa, sb, form): &(usize, Vec<usize>, Vec<usize>, bool, bool, usize)) -> Case {
     let (name, n, _) = SCALARS[*t];
     let m = |v: &Vec<usize>| -> Vec<usize> { v.iter().map(|&i| [0, n / 2, n - 1][i].min(n - 1)).collect() };
     match form {
